@@ -142,10 +142,15 @@ ASMJIT_FAVOR_SIZE Error init_func_detail(FuncDetail& func, const FuncSignature& 
         FuncValue& arg = func._args[i][0];
         TypeId type_id = arg.type_id();
 
+        // Apple passes all variadic arguments (the arguments at and after `va_index`) by stack, each occupies
+        // 8-byte stack slot(s).
+        bool va_by_stack = cc.strategy() == CallConvStrategy::kAArch64Apple && func.has_var_args() && i >= func.va_index();
+        uint32_t min_arg_size = va_by_stack ? 8u : min_stack_arg_size;
+
         if (TypeUtils::is_int(type_id)) {
           uint32_t reg_id = Reg::kIdBad;
 
-          if (gpz_pos < CallConv::kMaxRegArgsPerGroup) {
+          if (gpz_pos < CallConv::kMaxRegArgsPerGroup && !va_by_stack) {
             reg_id = cc._passed_order[RegGroup::kGp].id[gpz_pos];
           }
 
@@ -156,7 +161,7 @@ ASMJIT_FAVOR_SIZE Error init_func_detail(FuncDetail& func, const FuncSignature& 
             gpz_pos++;
           }
           else {
-            uint32_t size = Support::max<uint32_t>(TypeUtils::size_of(type_id), min_stack_arg_size);
+            uint32_t size = Support::max<uint32_t>(TypeUtils::size_of(type_id), min_arg_size);
             stack_offset = Support::align_up(stack_offset, size);
             arg.assign_stack_offset(int32_t(stack_offset));
             stack_offset += size;
@@ -167,7 +172,7 @@ ASMJIT_FAVOR_SIZE Error init_func_detail(FuncDetail& func, const FuncSignature& 
         if (TypeUtils::is_float(type_id) || TypeUtils::is_vec(type_id)) {
           uint32_t reg_id = Reg::kIdBad;
 
-          if (vec_pos < CallConv::kMaxRegArgsPerGroup) {
+          if (vec_pos < CallConv::kMaxRegArgsPerGroup && !va_by_stack) {
             reg_id = cc._passed_order[RegGroup::kVec].id[vec_pos];
           }
 
@@ -183,7 +188,7 @@ ASMJIT_FAVOR_SIZE Error init_func_detail(FuncDetail& func, const FuncSignature& 
             vec_pos++;
           }
           else {
-            uint32_t size = Support::max<uint32_t>(TypeUtils::size_of(type_id), min_stack_arg_size);
+            uint32_t size = Support::max<uint32_t>(TypeUtils::size_of(type_id), min_arg_size);
             // Stack arguments are aligned to 8 bytes or to their natural alignment if greater (16-byte vectors).
             stack_offset = Support::align_up(stack_offset, Support::min<uint32_t>(size, 16u));
             arg.assign_stack_offset(int32_t(stack_offset));
